@@ -467,6 +467,41 @@ def r10_6(ctx):
                 where = b.where(b.term_loc(bb2))
         detail = "a node can be scored without consulting the repetition record (e.g. at the search horizon): a move into a third occurrence is then not valued as a draw"
     ctx.ob("alpha_beta_search:repetition-test-on-every-node", not bad and bool(tests), where, detail)
+    # ... and the answer "this is a repetition" is scored as a draw: every value stored to the return place
+    # in the region that edge dominates is the constant 0 (the property: "valued as a draw", and the final
+    # score of the side that has such a move is never below zero - a small positive or negative "contempt"
+    # for the side to move is a negative score for the other)
+    nz = 0
+    for tb in sorted(tests):
+        tt = b.term(tb)
+        res = tt["dest"]["local"] if not tt["dest"]["proj"] else None
+        for s_ in b.normal:
+            if s_ not in b.reachable or b.term(s_)["k"] != "switch":
+                continue
+            d = ex.switch_discr(s_)
+            neg = False
+            while d[0] == "un" and d[1] == "Not":
+                d, neg = d[2], not neg
+            if not (d[0] == "call" and d[1] == IS3 and d[3] == b.term_loc(tb)):
+                continue
+            st = b.term(s_)
+            true_t = [tg for v, tg in st["cases"] if v != 0] + ([st["otherwise"]] if all(v == 0 for v, _ in st["cases"]) else [])
+            false_t = [tg for v, tg in st["cases"] if v == 0]
+            rep_t = false_t if neg else true_t
+            for tg in rep_t:
+                vals = []
+                for loc, stt in b.iter_stmts():
+                    if stt["k"] == "assign" and stt["place"]["local"] == 0 and not stt["place"]["proj"] and (loc[0] == tg and len(b.pred.get(tg, [])) == 1 or b.edge_dominates((s_, tg), loc[0])):
+                        vals.append((loc, ex.rvalue(stt["rv"], loc)))
+                for bb2, t2 in b.iter_calls():
+                    if t2["dest"]["local"] == 0 and not t2["dest"]["proj"] and b.edge_dominates((s_, tg), bb2):
+                        vals.append((b.term_loc(bb2), ("call", callee_of(t2) or "?", (), None)))
+                nz += 1
+                badv = [(loc, v) for loc, v in vals if v != ("const", 0)]
+                ctx.ob("alpha_beta_search:repetition-scored-as-draw", bool(vals) and not badv, b.where(badv[0][0]) if badv else b.where(b.term_loc(s_)),
+                       "on the repetition edge the node returns %s" % ("the constant 0" if vals and not badv else
+                                                                       "`%s`: a third occurrence is not valued as a draw" % (show_expr(badv[0][1], b)[:60] if badv else "nothing recognisable")))
+    ctx.floor("repetition edges in the search", nz, 1)
 
 
 def r10_8(ctx):
